@@ -258,7 +258,7 @@ def do_edges_intersect(
 
         def __lt__(self, other):
             """Required for sorting events"""
-            return self.x < other.x
+            return (self.x, not self.is_start) < (other.x, not other.is_start)
 
         def __hash__(self):
             """Required for creating a set of events"""
